@@ -136,6 +136,46 @@ def get (h : Heap) (i k dflt : Nat) : Look :=
   | .missing => .found dflt
   | r => r
 
+/-! ### `ClassNode.clone`: instantiating a class template
+
+`new.fmtdict = self.fmtdict.clone()`, then every function is cloned and its
+scope re-attached: directly under the new class when its parent is the old
+class scope (or `None`), otherwise under a clone of its parent (a `block:`
+scope), cloned once (`cloned` memo) and itself re-attached the same way. -/
+
+def memoGet (cl : List (Nat × Nat)) (k : Nat) : Option Nat :=
+  match cl with
+  | [] => none
+  | (a, b) :: r => if a = k then some b else memoGet r k
+
+def rehome : Nat → Heap → List (Nat × Nat) → Nat → Nat → Nat → Heap × List (Nat × Nat)
+  | 0, h, cl, _, _, _ => (h, cl)
+  | fuel + 1, h, cl, s, oldTop, newTop =>
+    match h[s]? with
+    | none => (h, cl)
+    | some fr =>
+      match fr.parent with
+      | none => (reparent h s (some newTop), cl)
+      | some p =>
+        if p = oldTop then (reparent h s (some newTop), cl)
+        else match memoGet cl p with
+          | some c => (reparent h s (some c), cl)
+          | none =>
+            let (h1, c) := clone h p
+            let (h2, cl2) := rehome fuel h1 ((p, c) :: cl) c oldTop newTop
+            (reparent h2 s (some c), cl2)
+
+/-- returns the heap, the id of the new class scope and the ids of the new function scopes -/
+def cloneClass (h : Heap) (cls : Nat) (fns : List Nat) : Heap × Nat × List Nat :=
+  let (h1, ncls) := clone h cls
+  let step := fun (acc : Heap × List (Nat × Nat) × List Nat) (f : Nat) =>
+    let (hh, cl, out) := acc
+    let (h2, nf) := clone hh f
+    let (h3, cl3) := rehome (h2.length + 1) h2 cl nf cls ncls
+    (h3, cl3, out ++ [nf])
+  let (hf, _, out) := fns.foldl step (h1, [], [])
+  (hf, ncls, out)
+
 /-! ### the chain view: the list of local dictionaries from a scope outwards -/
 
 def lookupChain {β} : List (Dict β) → Nat → Option β
